@@ -96,7 +96,7 @@ package stack
 //@     && (s.state == gotCreated ==> len(s.Goroutines[len(s.Goroutines)-1].CreatedBy.Calls) >= 1)
 //@     && (RaceG(s.state) ==> 0 <= s.goroutineIndex && s.goroutineIndex < len(s.Goroutines))
 //@     && (s.state == gotRaceGoroutineFunc ==> len(s.Goroutines[s.goroutineIndex].CreatedBy.Calls) >= 1)
-//@     && (s.Goroutines == nil || rootOf(s.Goroutines) > rootOf(s.Snapshot))
+//@     && (s.Goroutines == nil || (rootOf(s.Goroutines) > rootOf(s.Snapshot) && len(s.Goroutines) >= 1))
 //@     && (forall i :: 0 <= i && i < len(s.Goroutines) ==> rootOf(s.Goroutines[i]) > rootOf(s.Snapshot) && (s.Goroutines[i].Stack.Calls == nil || rootOf(s.Goroutines[i].Stack.Calls) > rootOf(s.Snapshot)) && (s.Goroutines[i].CreatedBy.Calls == nil || rootOf(s.Goroutines[i].CreatedBy.Calls) > rootOf(s.Snapshot)))
 
 //@ func (*scanningState).scan
@@ -215,7 +215,7 @@ package stack
 //@   modifies Arg.Name caller-fresh
 //@ func (*Snapshot).guessPaths@ScanSnapshot
 //@   option assumed
-//@   modifies Snapshot.*, Call.*, MD:map[string]string, MV:map[string]string, ML:map[string]string caller-fresh
+//@   modifies Snapshot.RemoteGOROOT, Snapshot.RemoteGOPATHs, Snapshot.LocalGomods, Call.LocalSrcPath, Call.RelSrcPath, Call.ImportPath, Call.Location, MD:map[string]string, MV:map[string]string, ML:map[string]string caller-fresh
 //@ func (*Snapshot).augment@ScanSnapshot
 //@   option assumed
 //@   modifies Args.Processed caller-fresh
@@ -230,6 +230,9 @@ package stack
 //@   ensures [nothingBeforeForwardedIsHeld C02] old(fetched(in)) + (wlen(prefix) - old(wlen(prefix))) + len(result1) <= fetched(in)
 //@   ensures [suffixIsTail C02 C07] forall k :: 0 <= k && k < len(result1) ==> result1[k] == S(in, fetched(in) - len(result1) + k)
 //@   at-return [bufferedInSuffix C02 C07] opts != nil && s != nil && s.state != looking ==> len(result1) >= r.w - r.r
+//@   ensures [fetchedGrows C02] fetched(in) >= old(fetched(in)) && fetched(in) <= N(in) && wlen(prefix) >= 0
+//@   ensures [snapshotHasGoroutine C03] result0 != nil ==> len(result0.Goroutines) >= 1 && fresh(result0)
+//@   ensures [scanProgress C03] result2 == nil ==> old(fetched(in)) + (wlen(prefix) - old(wlen(prefix))) + len(result1) < fetched(in)
 //@   at-return [readerErrorWins C10] opts != nil && s != nil && rdErr != nil && rdErr != io.EOF ==> result2 == rdErr
 //@   at-return [noDumpAllForwarded C02] opts != nil && s != nil && s.state == looking && werrs(prefix) == old(werrs(prefix)) ==> old(fetched(in)) + (wlen(prefix) - old(wlen(prefix))) == fetched(in)
 //@   loop 0: invariant RI(r) && r.rd == in && Inv(s) && suffix == nil && fresh(r) && fresh(s) && fresh(s.Snapshot) && opts != nil
@@ -238,6 +241,7 @@ package stack
 //@   loop 0: invariant err != nil ==> pos(r) == fetched(in)
 //@   loop 0: invariant old(fetched(in)) + (wlen(prefix) - old(wlen(prefix))) <= pos(r)
 //@   loop 0: invariant s.state == looking && werrs(prefix) == old(werrs(prefix)) ==> old(fetched(in)) + (wlen(prefix) - old(wlen(prefix))) == pos(r)
+//@   loop 0: invariant [dumpStartedMeansProgress C03] s.state != looking ==> old(fetched(in)) + (wlen(prefix) - old(wlen(prefix))) < pos(r)
 //@   loop 0: invariant [errIsReaderError C10] (rdErr != nil && rdErr != io.EOF ==> err == rdErr) && (err == nil ==> rdErr == nil)
 //@   loop 0: invariant werrs(prefix) >= old(werrs(prefix)) && (err == nil ==> werrs(prefix) == old(werrs(prefix)))
 //@   loop 0: decreases (err == nil ? 1 : 0)
